@@ -138,7 +138,7 @@ def check_docx_paragraph():
     run = (lambda p: f(to_et(p), True)) if f else (lambda p: docx_api(p))
     r = Result()
     for name, p in TR.gen_docx_paragraphs():
-        sp = {DOCX_SPECIAL[x] for x in name.split("+") if x in DOCX_SPECIAL}
+        sp = {DOCX_SPECIAL[x.split("@")[0]] for x in name.split("+") if x.split("@")[0] in DOCX_SPECIAL}
         if len(sp) > 1:
             continue
         case = next(iter(sp)) if sp else "plain"
@@ -667,7 +667,7 @@ WITNESS_MAP = [
     ("[tracked-move-source]", "docx.paragraph", ["tracked-move"], None),
     ("[nested-paragraph]", "docx.paragraph", ["textbox-paragraphs"], None),
     ("_process_text_element/", "docx.paragraph", ["plain"], None),
-    ("_extract_paragraph_content/", "docx.paragraph", ["plain"], None),
+    ("_extract_paragraph_content/", "docx.paragraph", ["plain", "tracked-move"], None),
     ("_extract_full_text_from_body/inv-preserve#blocks.nw[content-control]", "docx.body", ["content-control"], None),
     ("_extract_full_text_from_body/inv-preserve#blocks.sq[content-control]", "docx.body", ["content-control"], None),
     ("_extract_full_text_from_body/", "docx.body", ["plain", "content-control"], None),
